@@ -672,7 +672,9 @@ def cmp_c16(case, i, m):
     if i.get("result") != m.get("result"):
         return ("parse", f"ParsePath({case['text']!r}) = {i.get('result')} but the documented grammar gives {m.get('result')}")
     want = "REJECT" if m.get("result") == "REJECT" else "ACCEPT"
-    for site, what in (("asKey", "as the key of a property constraint"), ("asComparison", "as the argument of lessThanProperty")):
+    for site, what in (("asKey", "as the key of a property constraint"), ("asComparison", "as the argument of lessThanProperty"),
+                       ("asElse", "as a constraint key in the else part of a conditional"), ("asThen", "as a constraint key in the then part of a conditional"),
+                       ("asOrOperand", "as a constraint key in an operand of `or`"), ("asNestedKey", "as a constraint key under a nested constraint")):
         if site in i and i[site] != want:
             return ("profile-site:" + site, f"the string {case['text']!r} {what}: the profile parser says {i[site]}, but the documented grammar {'rejects' if want == 'REJECT' else 'accepts'} it as a path")
     return None
